@@ -409,7 +409,7 @@ package proxy
 //@   assigns r.lastSent
 
 //@ contract (*proxyStreamReceiver).sendAck
-//@   props C03 C01
+//@   props C03 C01 C04
 //@   requires r.ackByTarget != nil && r.lastSentMin == r.lastSent && (r.lastSentAck != nil ==> ackOf(r.lastSentAck) == r.lastSent)
 //@   requires r.lastSentMin <= 0 || r.lastSentMin <= r.lastExclusiveHighOriginal
 //@   callpre Send.1: @bounded: lastExclusiveHighOriginal > 0 ==> ackOf($0) <= lastExclusiveHighOriginal
@@ -485,7 +485,7 @@ package proxy
 // Whenever a task message is handed to the shard manager: it goes to the key of its group, carries exactly that
 // group's tasks (every one owned by that shard), an exclusive high watermark of last id + 1 and the batch priority.
 //@ contract (*proxyStreamReceiver).recvReplicationMessages
-//@   props C02 C01
+//@   props C02 C01 C04
 //@   arith wrap
 //@   requires !(r.sourceShardID.ClusterID == 0 && r.sourceShardID.ShardID == 0) && r.ackByTarget != nil && !fresh(r.ackByTarget)
 //@   callpre DeliverMessagesToShardOwner.2: @to_owner: $0 == targetShardID && targetShardID in tasksByTargetShard &&
@@ -818,6 +818,7 @@ package proxy
 // wait group is released exactly once.
 //@ contract (*StreamForwarder).forwardReplicationMessages
 //@   props C06
+//@   wakeup f.shutdownChan.Channel()
 //@   requires f.shutdownChan != nil && f.sourceStreamClient != nil && f.targetStreamServer != nil && wg != nil
 //@   callpre Send: @same_message: $0 == resp && resp != nil && typeis(resp.Attributes, "*adminservice.StreamWorkflowReplicationMessagesResponse_Messages")
 //@   loop 1 invariant @nothing_skipped: f.fwdMsgs == old(f.fwdMsgs) + $recvs
@@ -830,6 +831,7 @@ package proxy
 // Initiator -> source: the same for sync-state messages.
 //@ contract (*StreamForwarder).forwardAcks
 //@   props C06
+//@   wakeup f.shutdownChan.Channel()
 //@   requires f.shutdownChan != nil && f.sourceStreamClient != nil && f.targetStreamServer != nil && wg != nil
 //@   callpre Send: @same_message: $0 == req && req != nil && typeis(req.Attributes, "*adminservice.StreamWorkflowReplicationMessagesRequest_SyncReplicationState")
 //@   loop 1 invariant @nothing_skipped: f.fwdAcks == old(f.fwdAcks) + $recvs
@@ -865,5 +867,8 @@ package proxy
 //@   assigns nothing
 //@ contract startListener$1
 //@   props C06
+//@   wakeup shutdownChan.Channel()
 //@   requires shutdownChan != nil && receiver != nil && open(targetStreamServerData)
 //@   ensures @closed: !open(targetStreamServerData)
+// the listener only listens: it never trips the latch itself (values it has queued would be dropped by the relay loop)
+//@   assigns open(targetStreamServerData)
